@@ -8,13 +8,13 @@ import json, os, subprocess, sys, tempfile, queue, concurrent.futures as cf, re
 env = dict(os.environ, GOFLAGS="-mod=mod", GOPROXY="off", GOSUMDB="off", GOTOOLCHAIN="local", GOWORK="off")
 OUT = "/verif/mutation"
 os.makedirs(OUT, exist_ok=True)
-gen = ["/verif/bin/mutgen", "/repo"] + (["typed"] if os.environ.get("TYPED") else [])
+gen = ["/verif/bin/mutgen", "/repo"] + (["typed"] if os.environ.get("TYPED") else ["guard"] if os.environ.get("GUARD") else [])
 muts = [json.loads(l) for l in subprocess.run(gen, capture_output=True, text=True, env=env).stdout.splitlines()]
 if len(sys.argv) > 1:
     muts = [m for m in muts if re.search(sys.argv[1], m["file"])]
 if len(sys.argv) > 2:
     muts = [m for m in muts if re.search(sys.argv[2], m["desc"])]
-RES = OUT + ("/results.typed.jsonl" if os.environ.get("TYPED") else "/results.jsonl" if len(sys.argv) <= 2 else "/results.extra.jsonl")
+RES = OUT + ("/results.typed.jsonl" if os.environ.get("TYPED") else "/results.guard.jsonl" if os.environ.get("GUARD") else "/results.jsonl" if len(sys.argv) <= 2 else "/results.extra.jsonl")
 props = {}
 for l in subprocess.run([os.environ.get("MOWCHECK", "/verif/bin/mowcheck"), "-list"], capture_output=True, text=True).stdout.splitlines():
     m = re.match(r"(\S+)\s+floor=\d+\s+props=(\S+)", l)
